@@ -9,6 +9,9 @@ import (
 )
 
 func lookup(engine string) func([]string) string {
+	if engine == "race" {
+		return raceOp
+	}
 	if f, ok := newrelic.VerifEngines[engine]; ok {
 		return f
 	}
